@@ -208,3 +208,26 @@ def run(ctx, prog, res):
     fb = [f for k, f in prog.fns.items() if k.startswith(fc.id + "::{closure")]
     r7.check(any(flow.shape(f, 0) == "const:UTC" for f in fb) or "const:UTC" in sh, {"fallback": "UTC"}, "C11.R7:fallback", "the fallback for an unknown zone name is not UTC", lib.where_of(fc))
     r7.floor(3)
+
+    # R8 -------------------------------------------------------------------------------------
+    r8 = res.rule("C11.R8", "`the zone inferred from them`: every way out of Context::from_coords carries the locale TzLocation::from_coords(coords) built from the unmodified argument - whatever the country lookup answered; no path substitutes another zone")
+    cf = prog.fns.get("opening_hours::context::Context::<opening_hours::localization::localize::TzLocation<chrono_tz::timezones::Tz>>::from_coords")
+    if cf is None:
+        r8.anchor_missing("Context::from_coords")
+    else:
+        shp = flow.shape(cf, 0, depth=8)
+        alts = [a.strip() for a in (shp[4:-1].split(" | ") if shp.startswith("alt(") else [shp])]
+        for a in alts:
+            m = re.search(r"locale: ((?:[^,{}()]|\([^()]*\))*)", a) if a.startswith("Context{") else None
+            loc = m.group(1).strip() if m else None
+            ok = loc is not None and re.fullmatch(r"(?:[\w:<>]*::)?TzLocation::from_coords\(p1\)", loc) is not None
+            r8.check(ok, {"fn": "Context::from_coords", "locale": loc or a[:100]}, "C11.R8:locale:%s" % ("other" if not ok else "from_coords"),
+                     "Context::from_coords has a way out whose locale is not TzLocation::from_coords(coords): %s - events are then computed for the coordinates but read on the clock of another zone (sunrise in the evening far from that zone)" % (loc or a[:160]), lib.where_of(cf))
+        # ... and nothing returns before that locale was computed
+        locs = [bb for bb, t in cf.calls() if flow.call_name(t).endswith("TzLocation::<chrono_tz::timezones::Tz>::from_coords")]
+        rets = flow.return_blocks(cf)
+        esc = flow.reach_avoiding(cf, 0, rets, locs) if locs else True
+        r8.check(bool(locs) and not esc, {"fn": "Context::from_coords", "every_return_after": "TzLocation::from_coords"}, "C11.R8:must-pass",
+                 "Context::from_coords can return without having inferred the zone from the coordinates", lib.where_of(cf))
+    r8.floor(2)
+
